@@ -94,14 +94,18 @@ Definition check_corr (k : case) : bool :=
 
 (* the property on the implementation's observation: the tables played by `expand` give the quantised source
    program, and everything emitted respects the device limits; rejecting is always allowed.
-   `spec_cached` = `spec` (Props.C16_spec_cached_eq), evaluated with one quantisation per waveform of the table *)
+   `spec_cached` = `spec` (Props.C16_spec_cached_eq), evaluated with one quantisation per waveform of the table;
+   round 6: on `map snap tbl`, i.e. Spec.spec_tol — the table carries the EXACT length of every piece, a piece within
+   the tolerance of get_waveform_length is specified as its wf_n samples, one outside has no specification *)
+Definition spec_eval (c : cfg) (tbl : list wfdata) (prog : loop) : option streams := spec_cached c (map snap tbl) prog.
+
 Definition check_spec (k : case) : bool :=
   match k with
   | CProg c tbl prog impl =>
       match impl with
       | None => true
       | Some o' =>
-          match spec_cached c tbl prog, expand o' with
+          match spec_eval c tbl prog, expand o' with
           | Some s, Some s' => streams_eqb s s' && limits_ok c o'
           | _, _ => false
           end
@@ -111,7 +115,7 @@ Definition check_spec (k : case) : bool :=
       match impl with
       | None => true
       | Some o' =>
-          match spec_cached c tbl prog0, expand o' with
+          match spec_eval c tbl prog0, expand o' with
           | Some s, Some s' => streams_eqb s s' && limits_ok c o'
           | _, _ => false
           end
@@ -123,10 +127,10 @@ Definition check_spec (k : case) : bool :=
 Definition check_plays (k : case) : bool :=
   match k with
   | CProg c tbl prog (Some o') =>
-      match spec_cached c tbl prog, expand o' with Some s, Some s' => streams_eqb s s' | _, _ => false end
+      match spec_eval c tbl prog, expand o' with Some s, Some s' => streams_eqb s s' | _, _ => false end
   | CProg _ _ _ None => true
   | CTwice _ c tbl prog0 _ (Some o') =>
-      match spec_cached c tbl prog0, expand o' with Some s, Some s' => streams_eqb s s' | _, _ => false end
+      match spec_eval c tbl prog0, expand o' with Some s, Some s' => streams_eqb s s' | _, _ => false end
   | CTwice _ _ _ _ _ None => true
   | CCrash => false
   end.
